@@ -212,6 +212,16 @@ def run_faults(cfg, out, props=None, tag="C05", profiles_pool=None, extra=None):
             c = w.connect_client(c)
             if pre:
                 pre()
+            if r.random() < 0.5:
+                # the server application's handle_message raises now and then (after it has taken the message)
+                raise_r = rng("raise", *key)
+
+                def raiser(client, seqnum, msg):
+                    if raise_r.random() < 0.12:
+                        run.c.inc("handler_raised_in_message")
+                        raise RuntimeError("seeded handler failure")
+                w.handler.on.setdefault("message", []).append(raiser)
+                run.c.inc("worlds_with_raising_handler")
             c.updates_per_step = r.choice([1, 2, 2])
             run.report.context = {"case_key": key, "mtu": mtu, "client_updates_per_tick": c.updates_per_step}
             P = run.C.Packet
@@ -322,6 +332,50 @@ def run_faults(cfg, out, props=None, tag="C05", profiles_pool=None, extra=None):
                     run.c.inc("burst_after_loss_scenarios")
                     w.step(r.randint(30, 90))
                     w.net.filters.remove(f)
+            # --- a gap of more than 32 datagrams: the sender streams on every tick; a retried message is received, its ack is
+            #     lost (reverse path cut), then the forward path is cut for 34-60 datagrams; the retransmission arrives after
+            #     the gap and must still be recognised as a duplicate (it is inside the 256-message window)
+            if run.open(c):
+                side = r.choice(["client", "server"])
+                ep = c if side == "client" else run.sconn(c)
+                fwd, rev = ("c2s", "s2c") if side == "client" else ("s2c", "c2s")
+                clean = L.Policy(delay=(0.004, 0.004))
+                w.net.set(**{fwd: clean, rev: L.Policy(outage=True)})
+                for _k in range(r.randint(2, 4)):
+                    run.app.send(ep, side, r.choice([12, 40, P.MAX_PAYLOAD_SIZE + 30]), r.choice([1, -1]), with_cb=True)
+                for _t in range(4):
+                    run.app.send(ep, side, 11, 0, with_cb=False)
+                    w.step()
+                w.net.set(**{fwd: L.Policy(outage=True)})
+                gap_ticks = r.randint(36, 62) * (2 if (side == "client" and c.updates_per_step == 1 and w.dt < 1 / 45) else 1)
+                sent0 = run.c.get("wire_" + fwd, 0)
+                for _t in range(gap_ticks):
+                    run.app.send(ep, side, 11, 0, with_cb=False)
+                    w.step()
+                run.c.inc("gap_scenarios")
+                run.c.inc("gap_scenarios_over_32_datagrams" if run.c.get("wire_" + fwd, 0) - sent0 > 33 else "gap_scenarios_short")
+                w.net.set(**{fwd: clean})
+                for _t in range(int(1.3 / w.dt)):
+                    if _t % 3 == 0:
+                        run.app.send(ep, side, 11, 0, with_cb=False)
+                    if _t == int(0.4 / w.dt):
+                        w.net.set(**{rev: clean})
+                    w.step()
+                w.net.heal(0.004)
+                w.step(10)
+            # --- the ack path reorders heavily while one side streams: an OLDER ack-carrying datagram that arrives after a
+            #     newer one still names datagrams the newer one's 32-bit map has slid past; they are acked, not timed out
+            if run.open(c) and not conf:
+                side = r.choice(["client", "server"])
+                ep = c if side == "client" else run.sconn(c)
+                fwd, rev = ("c2s", "s2c") if side == "client" else ("s2c", "c2s")
+                w.net.set(**{fwd: L.Policy(delay=(0.004, 0.004)), rev: L.Policy(delay=(0.0, 0.0), reorder=0.5, reorder_extra=(0.3, 0.8), loss=0.3)})
+                for _t in range(int(2.5 / w.dt)):
+                    run.app.send(ep, side, r.choice([11, 20]), 0, with_cb=True)
+                    w.step()
+                run.c.inc("reordered_ack_path_streams")
+                w.net.heal(0.004)
+                w.step(int(1.2 / w.dt))
             # --- storm
             pool = profiles_pool or ["lossy", "dup", "reorder", "slow", "acks-lost", "hostile", "very-slow"]
             profiles = [r.choice(pool) for _ in range(r.randint(1, 4))]
@@ -343,6 +397,17 @@ def run_faults(cfg, out, props=None, tag="C05", profiles_pool=None, extra=None):
                             k, side, len(calls), calls))
                     else:
                         run.c.inc("shared_callback_batches_exact")
+            # --- epilogue: the client application calls disconnect() while retransmissions of messages it already has are on
+            #     their way (their acks were lost); it keeps calling update()/getMessages() - nothing arrives a second time
+            if run.open(c):
+                sc_ = run.sconn(c)
+                w.net.set(c2s=L.Policy(outage=True), s2c=L.Policy(delay=(0.004, 0.004)))
+                for _k in range(3):
+                    run.app.send(sc_, "server", r.choice([12, 60, P.MAX_PAYLOAD_SIZE + 20]), r.choice([1, -1]), with_cb=False)
+                w.step(4)
+                c.udp.disconnect()
+                run.c.inc("client_disconnects_with_retransmissions_in_flight")
+                w.step(int(1.6 / w.dt))
             total += run.c.get("app_sends", 0)
             out["counters"].inc("worlds")
             out["counters"].inc("void_runs" if run.void else "runs_connection_open")
@@ -373,7 +438,8 @@ def finish(tier, seed, results):
                          "runs_connection_open", "delivered_to_server", "delivered_to_client", "net_lost_c2s", "net_lost_s2c",
                          "net_duplicated_c2s", "net_reordered_s2c", "burst_after_loss_scenarios", "best_effort_fragment_scenarios",
                          "worlds_keep_alive_longer_than_message_timeout", "sends_from_connect_callback", "sends_from_send_callback",
-                         "worlds_with_counters_near_wrap", "shared_callback_batches", "aged_sessions_fragment_ids_reused"], inconclusive)
+                         "worlds_with_counters_near_wrap", "shared_callback_batches", "aged_sessions_fragment_ids_reused",
+                         "gap_scenarios_over_32_datagrams", "reordered_ack_path_streams", "handler_raised_in_message", "client_disconnects_with_retransmissions_in_flight"], inconclusive)
     cov = {
         "evaluations": m["evaluations"],
         "distinct_nontrivial": m["distinct_nontrivial"],
